@@ -61,17 +61,42 @@ func canary(i int, flip bool) byte {
 
 type span struct{ off, n, cap int }
 
+// layout says how the arguments sit in the arena: the spare capacity behind
+// each, and optionally one ordered pair (a, b) that is CONTIGUOUS - b starts
+// where a's length ends, so cap(a) extends over b (and b's spare): the shape
+// of "ciphertext || tag" cut out of one message buffer.
+type layout struct {
+	spare []int
+	adj   []int // nil, or {a, b}: argument b directly behind argument a
+}
+
 // carveArena lays the arguments out in one arena:
 //
 //	guard | arg0 | spare0 | guard | arg1 | spare1 | guard ...
 //
-// every byte that is not argument content holds a position-dependent canary.
-// Each argument slice has len = its length and cap = len + its spare.
-func carveArena(args []arg, spare []int, flip bool) (arena []byte, slices [][]byte, spans []span) {
+// or, for an adjacent pair, guard | a | b | spare_b | guard. Every byte that
+// is not argument content holds a position-dependent canary. Each argument
+// slice has len = its length and cap = len + its spare (a: len + everything up
+// to the end of b's spare).
+func carveArena(args []arg, l layout, flip bool) (arena []byte, slices [][]byte, spans []span) {
+	a, b := -1, -1
+	if l.adj != nil {
+		a, b = l.adj[0], l.adj[1]
+	}
+	var order []int
+	for i := range args {
+		if i == b {
+			continue
+		}
+		order = append(order, i)
+		if i == a {
+			order = append(order, b)
+		}
+	}
 	total := guard
-	for i, a := range args {
-		if a.carve {
-			total += len(a.data) + spare[i] + guard
+	for i, x := range args {
+		if x.carve {
+			total += len(x.data) + l.spare[i] + guard
 		}
 	}
 	arena = make([]byte, total)
@@ -81,16 +106,25 @@ func carveArena(args []arg, spare []int, flip bool) (arena []byte, slices [][]by
 	slices = make([][]byte, len(args))
 	spans = make([]span, len(args))
 	off := guard
-	for i, a := range args {
-		if !a.carve {
-			slices[i] = a.data
+	for _, i := range order {
+		x := args[i]
+		if !x.carve {
+			slices[i] = x.data
 			spans[i] = span{-1, 0, 0}
 			continue
 		}
-		copy(arena[off:], a.data)
-		slices[i] = arena[off : off+len(a.data) : off+len(a.data)+spare[i]]
-		spans[i] = span{off, len(a.data), len(a.data) + spare[i]}
-		off += len(a.data) + spare[i] + guard
+		copy(arena[off:], x.data)
+		c := len(x.data) + l.spare[i]
+		if i == a {
+			c = len(x.data) + len(args[b].data) + l.spare[b]
+		}
+		slices[i] = arena[off : off+len(x.data) : off+c]
+		spans[i] = span{off, len(x.data), c}
+		if i == a {
+			off += len(x.data) // b follows immediately
+		} else {
+			off += c + guard
+		}
 	}
 	return arena, slices, spans
 }
@@ -120,45 +154,83 @@ func (c cond) describe() string {
 }
 
 // judge compares the arena with its snapshot and checks the results for aliasing.
+// Every arena byte has one owner: the argument whose length covers it
+// ("in-length"; for a destination only the bytes it must keep), else the
+// argument whose spare capacity covers it ("spare"; writable for a
+// destination), else nobody ("guard"). With an adjacent pair the bytes of b are
+// b's, although cap(a) reaches over them.
 func judge(sc *scenario, arena, before []byte, spans []span, out outcome) []cond {
-	var conds []cond
-	changed := func(lo, hi int) (first, last int, any bool) {
-		first, last = -1, -1
-		for i := lo; i < hi; i++ {
-			if arena[i] != before[i] {
-				if first < 0 {
-					first = i
-				}
-				last = i
-			}
-		}
-		return first, last, first >= 0
+	const (
+		oGuard = iota
+		oIn
+		oSpare
+		oFree // destination bytes the call may write
+	)
+	type own struct {
+		arg  int
+		kind int
 	}
-	prev := 0
+	owner := make([]own, len(arena))
+	for i := range owner {
+		owner[i] = own{-1, oGuard}
+	}
 	for i, sp := range spans {
 		if sp.off < 0 {
 			continue
 		}
-		a := sc.args[i]
-		if f, l, ok := changed(prev, sp.off); ok {
-			conds = append(conds, cond{region: "guard", off: f, wrote: clone(arena[f : l+1])})
+		k := oSpare
+		if sc.args[i].dst {
+			k = oFree
 		}
-		keep := sp.n
-		if a.dst {
-			keep = a.keep
-		}
-		if f, l, ok := changed(sp.off, sp.off+keep); ok {
-			conds = append(conds, cond{role: a.role, region: "in-length", off: f - sp.off, wrote: clone(arena[f : l+1])})
-		}
-		if !a.dst {
-			if f, l, ok := changed(sp.off+sp.n, sp.off+sp.cap); ok {
-				conds = append(conds, cond{role: a.role, region: "spare", off: f - sp.off - sp.n, wrote: clone(arena[f : l+1]), after: clone(arena[sp.off+sp.n : sp.off+sp.cap])})
+		for x := sp.off + sp.n; x < sp.off+sp.cap; x++ {
+			if owner[x].kind == oGuard {
+				owner[x] = own{i, k}
 			}
 		}
-		prev = sp.off + sp.cap
 	}
-	if f, l, ok := changed(prev, len(arena)); ok {
-		conds = append(conds, cond{region: "guard", off: f, wrote: clone(arena[f : l+1])})
+	for i, sp := range spans {
+		if sp.off < 0 {
+			continue
+		}
+		keep := sp.n
+		if sc.args[i].dst {
+			keep = sc.args[i].keep
+		}
+		for x := sp.off; x < sp.off+sp.n; x++ {
+			if x < sp.off+keep {
+				owner[x] = own{i, oIn}
+			} else {
+				owner[x] = own{i, oFree}
+			}
+		}
+	}
+	type acc struct{ first, last int }
+	hits := map[own]*acc{}
+	var order []own
+	for x := range arena {
+		if arena[x] == before[x] || owner[x].kind == oFree {
+			continue
+		}
+		o := owner[x]
+		if hits[o] == nil {
+			hits[o] = &acc{x, x}
+			order = append(order, o)
+		}
+		hits[o].last = x
+	}
+	var conds []cond
+	for _, o := range order {
+		h := hits[o]
+		w := clone(arena[h.first : h.last+1])
+		switch o.kind {
+		case oGuard:
+			conds = append(conds, cond{region: "guard", off: h.first, wrote: w})
+		case oIn:
+			conds = append(conds, cond{role: sc.args[o.arg].role, region: "in-length", off: h.first - spans[o.arg].off, wrote: w})
+		case oSpare:
+			sp := spans[o.arg]
+			conds = append(conds, cond{role: sc.args[o.arg].role, region: "spare", off: h.first - sp.off - sp.n, wrote: w, after: clone(arena[sp.off+sp.n : sp.off+sp.cap])})
+		}
 	}
 	// aliasing: a result's backing array (its whole capacity) against each argument's span
 	base := uintptr(unsafe.Pointer(unsafe.SliceData(arena)))
@@ -171,20 +243,32 @@ func judge(sc *scenario, arena, before []byte, spans []span, out outcome) []cond
 		if hi <= base || lo >= base+uintptr(len(arena)) {
 			continue
 		}
+		// the argument the result STARTS in names the condition (a result that
+		// is a window of argument a and whose capacity runs on over a
+		// neighbouring argument b is one sharing, not two); a result that
+		// starts outside every argument is charged to each one it overlaps
 		hit := false
+		var overlaps []int
+		start := -1
 		for i, sp := range spans {
-			if sp.off < 0 {
+			if sp.off < 0 || sp.cap == 0 {
 				continue
 			}
 			alo, ahi := base+uintptr(sp.off), base+uintptr(sp.off+sp.cap)
-			if sp.cap == 0 {
-				continue
-			}
 			if lo < ahi && alo < hi {
 				hit = true
-				if !sc.mayAlias[sc.args[i].role] {
-					conds = append(conds, cond{role: sc.args[i].role, region: "alias", result: out.names[ri]})
+				overlaps = append(overlaps, i)
+				if lo >= alo && lo < ahi && (start < 0 || sp.off > spans[start].off) {
+					start = i // the innermost owner: with an adjacent pair the later-starting span
 				}
+			}
+		}
+		if start >= 0 {
+			overlaps = []int{start}
+		}
+		for _, i := range overlaps {
+			if !sc.mayAlias[sc.args[i].role] {
+				conds = append(conds, cond{role: sc.args[i].role, region: "alias", result: out.names[ri]})
 			}
 		}
 		if !hit {
@@ -239,11 +323,11 @@ func (sc *scenario) condName(c cond) string {
 // pattern, and merges what the two runs show. An aliasing condition on an
 // argument the call also wrote to is the same defect seen twice (an in-place
 // append both writes the caller's memory and returns it) and is dropped.
-func (sc *scenario) run(spare []int) ([]cond, outcome) {
+func (sc *scenario) run(l layout) ([]cond, outcome) {
 	var merged []cond
 	var out outcome
 	for _, flip := range []bool{false, true} {
-		arena, slices, spans := carveArena(sc.args, spare, flip)
+		arena, slices, spans := carveArena(sc.args, l, flip)
 		before := clone(arena)
 		out = sc.call(slices)
 		for _, c := range judge(sc, arena, before, spans, out) {
@@ -277,15 +361,27 @@ func (sc *scenario) run(spare []int) ([]cond, outcome) {
 	return conds, out
 }
 
-// layoutFor maps a layout of an outer scenario onto an inner one by role.
-func layoutFor(inner, outer *scenario, spare []int) []int {
+// layoutFor maps a layout of an outer scenario onto an inner one by role (an
+// adjacent pair is kept when the inner function takes both arguments).
+func layoutFor(inner, outer *scenario, l layout) layout {
 	byRole := map[string]int{}
 	for i, a := range outer.args {
-		byRole[a.role] = spare[i]
+		byRole[a.role] = l.spare[i]
 	}
-	out := make([]int, len(inner.args))
+	idx := map[string]int{}
+	out := layout{spare: make([]int, len(inner.args))}
 	for i, a := range inner.args {
-		out[i] = byRole[a.role]
+		out.spare[i] = byRole[a.role]
+		if a.carve {
+			idx[a.role] = i
+		}
+	}
+	if l.adj != nil {
+		a, aok := idx[outer.args[l.adj[0]].role]
+		b, bok := idx[outer.args[l.adj[1]].role]
+		if aok && bok && !inner.args[a].dst && !inner.args[b].dst {
+			out.adj = []int{a, b}
+		}
 	}
 	return out
 }
@@ -294,7 +390,7 @@ type finding struct{ key, msg string }
 
 // evaluate runs the scenario and attributes each condition to the innermost
 // exported function that shows the same condition on the same arguments.
-func (sc *scenario) evaluate(spare []int) ([]finding, outcome) {
+func (sc *scenario) evaluate(spare layout) ([]finding, outcome) {
 	conds, out := sc.run(spare)
 	var fs []finding
 	for _, c := range conds {
@@ -326,13 +422,16 @@ func (sc *scenario) evaluate(spare []int) ([]finding, outcome) {
 	return fs, out
 }
 
-func layoutString(sc *scenario, spare []int) string {
+func layoutString(sc *scenario, l layout) string {
 	var s []string
 	for i, a := range sc.args {
-		if a.carve {
-			s = append(s, fmt.Sprintf("%s:len=%d+spare=%d", a.role, len(a.data), spare[i]))
-		} else {
+		switch {
+		case !a.carve:
 			s = append(s, a.role+":nil")
+		case l.adj != nil && i == l.adj[0]:
+			s = append(s, fmt.Sprintf("%s:len=%d,directly-followed-by-%s", a.role, len(a.data), sc.args[l.adj[1]].role))
+		default:
+			s = append(s, fmt.Sprintf("%s:len=%d+spare=%d", a.role, len(a.data), l.spare[i]))
 		}
 	}
 	return "[" + strings.Join(s, " ") + "]"
@@ -341,18 +440,21 @@ func layoutString(sc *scenario, spare []int) string {
 // spares is the spare-capacity set of the property's quantifier.
 var spares = []int{0, 1, 15, 16, 17, 64}
 
-// layouts: every argument gets the same spare (all at once), then each carved
-// argument alone gets each non-zero spare (one at a time); an AEAD destination
-// additionally gets 160 so that results of every length fit in place.
-func layouts(sc *scenario) [][]int {
-	var out [][]int
+// layouts: every argument gets the same spare (all at once); each carved
+// argument alone gets each non-zero spare (one at a time; an AEAD destination
+// additionally 160 so that results of every length fit in place); and, for
+// functions taking several byte slices, every ordered pair (a, b) of input
+// arguments laid out contiguously - b directly behind a - with 0 and with 16
+// bytes of spare capacity behind b.
+func layouts(sc *scenario) []layout {
+	var out []layout
 	n := len(sc.args)
 	for _, s := range spares {
 		l := make([]int, n)
 		for i := range l {
 			l[i] = s
 		}
-		out = append(out, l)
+		out = append(out, layout{spare: l})
 	}
 	for i, a := range sc.args {
 		if !a.carve {
@@ -365,7 +467,21 @@ func layouts(sc *scenario) [][]int {
 		for _, s := range ss {
 			l := make([]int, n)
 			l[i] = s
-			out = append(out, l)
+			out = append(out, layout{spare: l})
+		}
+	}
+	for a, x := range sc.args {
+		for b, y := range sc.args {
+			// (a destination is excluded: cipher.AEAD requires that dst's spare
+			// capacity does not overlap the other arguments)
+			if a == b || !x.carve || !y.carve || x.dst || y.dst {
+				continue
+			}
+			for _, tail := range []int{0, 16} {
+				l := make([]int, n)
+				l[b] = tail
+				out = append(out, layout{spare: l, adj: []int{a, b}})
+			}
 		}
 	}
 	return out
